@@ -259,6 +259,8 @@ def main(argv=None):
         spec = load_spec(spec_path(prop), prop)
     except (EngineError, SpecDrift) as ex:
         return undecided("spec error: %s" % ex)
+    budget = spec.ns.get("BUDGET_QUICK", budget) if tier == "quick" else spec.ns.get("BUDGET_THOROUGH", budget)
+    SV.RACE = bool(spec.ns.get("SOLVER_RACE", False))
     try:
         for fn in spec.extra_checks:
             fn(REPO)            # structural censuses (may raise SpecDrift)
